@@ -251,6 +251,20 @@ func judgeC19(c *Ctx, sc *Scenario) *Violation {
 		if err != nil {
 			return &Violation{"C19/invalid-json", fmt.Sprintf("%v: %v\n%s", fmtArgs, err, firstBytes(ra.Stdout, 400))}
 		}
+		if len(fmtArgs) == 1 {
+			// JSON v1: the fixed part of the key set does not depend on the
+			// repository at all (an empty scan reports zeros and an empty
+			// reference_groups object)
+			m1, _ := ParseJSONObject(ra.Stdout)
+			for _, k := range append(append([]string(nil), AllNumericFields...), "reference_count") {
+				if _, ok := m1[k]; !ok {
+					return &Violation{"C19/json-key-missing", fmt.Sprintf("%v: key %q is missing", fmtArgs, k)}
+				}
+			}
+			if _, ok := m1["reference_groups"].(map[string]interface{}); !ok {
+				return &Violation{"C19/json-key-missing", fmt.Sprintf("%v: reference_groups is %T, not an object", fmtArgs, m1["reference_groups"])}
+			}
+		}
 		kb, sb, err := jsonKeySet(rb.Stdout, true)
 		if err != nil {
 			return nil
@@ -302,6 +316,12 @@ func checkC19(c *Ctx, rt *rapid.T) {
 		if o.Kind == KTree && strings.Contains(string(o.Body), "\n[") {
 			return
 		}
+	}
+	if g.Rare(1, 8, "norefs") {
+		// nothing to list at all: no reference (objects stay, reachable only
+		// through ROOT arguments), HEAD unborn - the report keeps its shape
+		w.Refs = nil
+		w.Head = "ref: refs/heads/unborn"
 	}
 	specs := GenGroups(g, w, 4, true)
 	w.Config.Local = RenderGroups(specs, &g)
